@@ -738,3 +738,15 @@ Proof.
   - apply mm_take; [reflexivity|]. apply mm_skip. apply mm_take; [reflexivity|]. apply mm_done.
   - intros H. apply (greedy_spec Nat.eqb [1; 2; 3]%nat [3; 1]%nat) in H. discriminate.
 Qed.
+
+(** State inventory (tie, translator part): every Go struct the model of this property represents has, in the
+    source as it is NOW (gen/Structs.v, regenerated on every run), exactly the fields - names, types, order - the
+    model was written against (model/StateInventory.v).  New state in these objects (a memoised digest, a cached
+    document, a remembered operand) is state the theorems above do not speak about: this is the obligation that
+    stops checking then. *)
+From GoBT Require gen.Structs model.StateInventory.
+Theorem C06_state_inventory :
+  forall k, In k (StateInventory.group_of "C06") ->
+  exists f, StateInventory.lookup_gen gen.Structs.structs k = Some f /\ StateInventory.lookup_model k = Some f.
+Proof. apply StateInventory.inventory_ok_spec. vm_compute. reflexivity. Qed.
+Print Assumptions C06_state_inventory.
